@@ -185,3 +185,23 @@ Proof.
   unfold spec_L, spec_R. destruct (dom_after [] [] [] (history_of acts)) as [[used lvL] lvR]. cbn [fst snd].
   apply (quiescent_is_spec used lvL lvR g w I D Hq).
 Qed.
+
+(* C02 at every moment, not only at quiet: whatever the engine is doing, a file a user made and still has is live on
+   that user's own side with the content the user wrote last *)
+Theorem algo_own_files_kept t0 lg0 acts w :
+  lg0 <= t0 + 1 -> in_F1 (cfg_std 1) (history_of acts) = true ->
+  algo_run (world_init (cfg_std 1) t0 lg0) acts = ROk w ->
+  forall rel d, (in_lv (spec_L (history_of acts)) rel d -> In (rel, (ProvModel.KFile, d)) (rel_view w false)) /\
+                (in_lv (spec_R (history_of acts)) rel d -> In (rel, (ProvModel.KFile, d)) (rel_view w true)).
+Proof.
+  intros Hlg HF H rel d. unfold in_F1, in_F in HF. cbn in HF.
+  destruct (run_dom acts [] [] [] g0 _ w (init_inv t0 lg0 Hlg) (NoTmp_init _ _ _) (Dom_init _ _ _) HF H) as (g & I & _ & D).
+  unfold spec_L, spec_R. destruct (dom_after [] [] [] (history_of acts)) as [[used lvL] lvR]. cbn [fst snd].
+  assert (Hfrom: forall (s : bool), in_lv (if s then lvR else lvL) rel d -> In (rel, (ProvModel.KFile, d)) (rel_view w s)).
+  { intros s (r & Hlv). destruct (d_live _ _ _ _ _ D s rel (d :: r) Hlv) as (n & k & ob & -> & Hob & Hl & Hp & Hg).
+    destruct (i_ghost _ _ _ I s k _ Hg) as (Hk2 & ob0 & r0 & Y1 & Y2). assert (ob0 = ob) by congruence. subst ob0.
+    injection Y2 as Hd _. rewrite Hd.
+    destruct (sh_files _ _ (i_shape _ _ _ I s) k ob Hk2 Hob) as (Hkf & _).
+    apply (file_in_view g w s k ob n I Hob Hl Hp Hkf). }
+  split; [apply (Hfrom false)|apply (Hfrom true)].
+Qed.
